@@ -89,6 +89,22 @@ func genPriorityPlan(t *rapid.T) *Plan {
 			cur = at
 		}
 	}
+	if mode == "adversarial" && rapid.Bool().Draw(t, "hb_faults") {
+		// the incumbent's refreshes fail transiently / are answered late while it is being preempted
+		for j := rapid.IntRange(1, 3).Draw(t, "n_hb_faults"); j > 0; j-- {
+			i := rapid.IntRange(0, n-1).Draw(t, "hbf_inst")
+			r := OpRule{Kind: OpUpdate, N: rapid.IntRange(0, 6).Draw(t, "hbf_n")}
+			switch rapid.IntRange(0, 2).Draw(t, "hbf_kind") {
+			case 0:
+				r.Fault, r.ErrKind = FaultErr, rapid.SampledFrom([]string{ErrKTimeout, ErrKNoResponders}).Draw(t, "hbf_err")
+			case 1:
+				r.Fault = FaultAckLost
+			default:
+				r.SetLat, r.ReqLat, r.RespLat = true, 1, time.Second+time.Duration(rapid.Int64Range(1, int64(h)).Draw(t, "hbf_resp"))
+			}
+			p.Instances[i].Rules = append(p.Instances[i].Rules, r)
+		}
+	}
 	if mode == "adversarial" {
 		// stops and restarts are allowed for the safety clause
 		for j := 0; j < rapid.IntRange(0, 2).Draw(t, "stops"); j++ {
